@@ -497,6 +497,13 @@ fn process_tags(
             let gen_result = t.generate_events(context);
             #[cfg(feature = "verif")]
             crate::verif::elem_exit(context, gen_result.is_ok());
+            if let Err(err) = &gen_result {
+                // exceeding a limit is final; retrying (or carrying on with
+                // siblings) can only repeat the work which hit the limit.
+                if err.is_limit_error() {
+                    return gen_result.map(|_| None);
+                }
+            }
             if !context.in_specs {
                 // if we *are* in a specs block, we don't care if there were errors;
                 // a specs entry may have insufficient context until reuse time.
